@@ -25,9 +25,11 @@ def _dreye():
 @st.composite
 def domains(draw, n):
     kind = draw(st.sampled_from(["step", "uniform", "nonuniform", "nonuniform"]))
+    # the unit of the domain is arbitrary (nm, um, m, seconds...): absolute scales from 1e-9 to 1e3
+    unit = draw(st.sampled_from([1.0, 1.0, 1.0, 1e-3, 1e-6, 1e-9, 1e3]))
     if kind == "step":
-        return draw(st.one_of(st.sampled_from([1.0, 0.5, 2.0, 5.0]), gens.log_uniform(1e-3, 1e2)))
-    return draw(gens.ascending_domain(n, uniform=(kind == "uniform")))
+        return unit * draw(st.one_of(st.sampled_from([1.0, 0.5, 2.0, 5.0]), gens.log_uniform(1e-3, 1e2)))
+    return [unit * v for v in draw(gens.ascending_domain(n, uniform=(kind == "uniform")))]
 
 
 @st.composite
